@@ -50,27 +50,30 @@ theorem array_byteswap_error_iff (d : DType) (data : Bits) :
   exact array_byteswap_error_iff' d data
 
 /-- The acceptance test of `Array.extend(array.array)` — the code's comparison of definition name and length after
-    `parse_single_struct_token('=' + typecode)` — accepts a typecode iff it is one of the thirteen struct codes and
-    the Array's dtype is the bitstring dtype of that code's native standard layout (kind, width and byte order). -/
-theorem array_accept_iff (d : DType) (tc : Char) :
-    arrayAccepts d tc = true ↔ ∃ s, structSpec '=' tc = some s ∧ d = nativeDtype s := by
-  exact array_accept_iff' d tc
+    `parse_single_struct_token('=' + typecode)` and `get_dtype(name, itemsize * 8)` — accepts a typecode iff it is one
+    of the thirteen struct codes and the Array's dtype is the bitstring dtype of that code's native layout with the
+    array's own item size (kind, width and byte order), for every item size C allows for the typecode. -/
+theorem array_accept_iff (d : DType) (tc : Char) (itemsize : Nat) (hok : itemsizeOK tc itemsize = true) :
+    arrayAccepts d tc itemsize = true ↔
+      ∃ k n, structKindSize tc = some (k, n) ∧ d = nativeDtype ⟨k, itemsize, nativeOrder⟩ := by
+  exact array_accept_iff' d tc itemsize hok
 
 /-- "accepts array.array input only when the item kind and width match". -/
-theorem array_accept_only_when_match (d : DType) (tc : Char) (h : arrayAccepts d tc = true) :
-    ∃ s, structSpec '=' tc = some s ∧ d.length = 8 * s.size ∧ d.meaning.same s = true := by
-  exact array_accept_only_when_match' d tc h
+theorem array_accept_only_when_match (d : DType) (tc : Char) (itemsize : Nat) (hok : itemsizeOK tc itemsize = true)
+    (h : arrayAccepts d tc itemsize = true) :
+    ∃ k n, structKindSize tc = some (k, n) ∧ d.length = 8 * itemsize ∧
+      d.meaning.same ⟨k, itemsize, nativeOrder⟩ = true := by
+  exact array_accept_only_when_match' d tc itemsize hok h
 
-/-- "reading it back to the same values" — wherever the platform's item size is the standard size of the code
-    (region complement of `array_typecode_platform_itemsize`): after an accepted `extend` onto whole items,
-    `tolist` is the old list followed by the array.array's values (NaN-free). -/
-theorem array_extend_reads_back_partial (d : DType) (tc : Char) (itemsize : Nat) (data data' : Bits)
-    (old vals : List Val)
-    (hreg : array_typecode_platform_itemsize tc itemsize = false)
-    (hold : arrayToList d data = .ok old) (hfin : ∀ v ∈ vals, valFinite tc v = true)
+/-- "reading it back to the same values": after an accepted `extend` onto whole items, `tolist` is the old list
+    followed by the array.array's values (NaN-free), whatever the platform's item size for the typecode. -/
+theorem array_extend_reads_back (d : DType) (tc : Char) (itemsize : Nat) (data data' : Bits)
+    (old vals : List Val) (hok : itemsizeOK tc itemsize = true)
+    (hold : arrayToList d data = .ok old)
+    (hfin : ∀ v ∈ vals, ∀ p, v = .flt p → Struct.isNaN itemsize p = false)
     (h : arrayExtend d data tc itemsize vals = .ok data') :
     arrayToList d data' = .ok (old ++ vals) := by
-  exact array_extend_reads_back_partial' d tc itemsize data data' old vals hreg hold hfin h
+  exact array_extend_reads_back' d tc itemsize data data' old vals hok hold hfin h
 
 /-- `extend` appends exactly `array.array.tobytes()` and touches nothing else (any item size). -/
 theorem array_extend_appends (d : DType) (tc : Char) (itemsize : Nat) (data data' : Bits) (vals : List Val)
@@ -78,17 +81,16 @@ theorem array_extend_appends (d : DType) (tc : Char) (itemsize : Nat) (data data
     ∃ bytes, arrayArrayTobytes tc itemsize vals = .ok bytes ∧ data' = data ++ bitsOfBytes bytes := by
   exact array_extend_appends' d tc itemsize data data' vals h
 
-/-! ### Known deviations of the unchanged tree (witnesses; regions as in the harness) -/
+/-! ### Known deviation of the unchanged tree (witness; region as in the harness), and a fixed one -/
 
-/-- KNOWN FINDING `array-extend-ignores-itemsize`: on a platform where `array.array('l')` has 8-byte items,
-    `Array('intne32').extend(array.array('l', [1, 2]))` is accepted (the test looks at the typecode only) and the
-    sixteen bytes are read back as `[1, 0, 2, 0]` on a little-endian machine. -/
-theorem array_long_misread_witness :
-    array_typecode_platform_itemsize 'l' 8 = true ∧ arrayAccepts ⟨.intle, 32⟩ 'l' = true ∧
-    ((arrayExtend ⟨.intle, 32⟩ [] 'l' 8 [.int 1, .int 2]).toOption.map
-        fun b => (arrayToList ⟨.intle, 32⟩ b).toOption)
-      = (if nativeOrder = .little then some (some [.int 1, .int 0, .int 2, .int 0])
-         else some (some [.int 0, .int 1, .int 0, .int 2])) := by
+/-- Fixed in 763a007 (was finding `array-extend-ignores-itemsize`): with 8-byte `array.array('l')` items the 32-bit
+    Array refuses the array and the 64-bit one takes it and reads the same values back. -/
+theorem array_long_itemsize_checked :
+    arrayAccepts ⟨.intle, 32⟩ 'l' 8 = false ∧ arrayAccepts ⟨.intbe, 32⟩ 'l' 8 = false ∧
+    arrayAccepts (nativeDtype ⟨.sint, 8, nativeOrder⟩) 'l' 8 = true ∧
+    ((arrayExtend (nativeDtype ⟨.sint, 8, nativeOrder⟩) [] 'l' 8 [.int 1, .int (-2)]).toOption.map
+        fun b => (arrayToList (nativeDtype ⟨.sint, 8, nativeOrder⟩) b).toOption)
+      = some (some [.int 1, .int (-2)]) := by
   decide +kernel
 
 /-- KNOWN FINDING `at-prefix-standard-sizes`: `'@'` is treated as `'='` (bitstring documents them as equivalent), so
@@ -119,10 +121,10 @@ example : (setDtype "<h").toOption = some ⟨.intle, 16⟩ ∧ (setDtype "floatn
     (setDtype "<hh").toOption = none := by decide +kernel
 example : ((arrayBuild ⟨.intle, 16⟩ [.int 1, .int 2, .int (-3)]).map toBytes).toOption
     = some [1, 0, 2, 0, 0xfd, 0xff] := by decide +kernel
-example : arrayAccepts ⟨.int, 8⟩ 'b' = true ∧ arrayAccepts ⟨.int, 16⟩ 'h' = false ∧ arrayAccepts ⟨.uint, 8⟩ 'u' = false := by
+example : arrayAccepts ⟨.int, 8⟩ 'b' 1 = true ∧ arrayAccepts ⟨.int, 16⟩ 'h' 2 = false ∧ arrayAccepts ⟨.uint, 8⟩ 'u' 4 = false ∧
+    arrayAccepts ⟨.uint, 16⟩ 'h' 2 = false ∧ itemsizeOK 'l' 8 = true ∧ itemsizeOK 'b' 2 = false := by
   decide +kernel
 example : (arrayExtend ⟨.int, 8⟩ (bitsOfBytes [7]) 'b' 1 [.int (-1)]).toOption = some (bitsOfBytes [7, 255]) := by
   decide +kernel
-example : array_typecode_platform_itemsize 'h' 2 = false := by decide +kernel
 
 end BM.C18
